@@ -8,6 +8,16 @@
 //!   (iv)  the comparator observed by sorting every 2-element multiset of the pool is
 //!         antisymmetric and its "not greater" is transitive on every triple of the pool,
 //!   and sorting never panics.
+//! End-to-end cases (kinds q:*, second half of the file): the criteria are EXPRESSIONS over operands
+//! (arithmetic whose operands leave and re-enter the isize range, mixed numeric types, strings, booleans,
+//! conditionals, date parts, keys computed from BIND-ed keys), given in ORDER BY directly, through BIND or
+//! through a SELECT expression, with ASC/DESC mixes, FILTER, GRAPH, LIMIT/OFFSET and DISTINCT, over three
+//! dataset types and the three query entry points.  The keys are observed through BIND, and
+//!   (v)   two different terms with exactly equal values (1 / 1.0 / 1e0 / "01"^^xsd:integer, one instant in
+//!         two time zones, true / "1"^^xsd:boolean) are tied: the NEXT key decides (also in the rows cases),
+//!   (vi)  the engine's own operator '<' (BIND and FILTER over every ordered pair of solutions) never
+//!         contradicts the output order,
+//!   (vii) a LIMIT/OFFSET window is the window of the complete ordered result, (viii) DISTINCT keeps the order.
 //! The model receives, for every pool term, the value that the implementation itself parsed
 //! (Debug rendering of ResultTerm::value()), so that lexical parsing is not part of the model.
 use sophia_api::prelude::*;
@@ -53,6 +63,27 @@ fn pool_terms() -> Vec<ST> {
     v.push(triple(iri("http://example.org/a"), iri("http://example.org/p"), x("1", "integer")));
     v.push(triple(iri("http://example.org/a"), iri("http://example.org/p"), x("2", "integer")));
     v.push(triple(bnode("b1"), iri("http://example.org/p"), iri("http://example.org/a")));
+    v
+}
+
+/// terms added after the swept pool (the sweep of all pairs stays on `pool_terms`): more spellings of
+/// equal values (ties that a later key must break) and integers around the ends of the isize range
+fn extra_terms() -> Vec<ST> {
+    let mut v: Vec<ST> = vec![];
+    for l in ["01", "+1", "10", "010", "-01", "2", "3", "-7", "9223372036854775805", "-9223372036854775805", "-9223372036854775808",
+              "-9223372036854775809", "18446744073709551616", "4611686018427387904", "3037000500", "-9223372036854775807"] { v.push(x(l, "integer")); }
+    for l in ["1.00", "10.0", "-1.50", "+2.500", "0.10", "3.0", "-7.0", "9223372036854775808.0", "0"] { v.push(x(l, "decimal")); }
+    for l in ["1e0", "1E1", "10", "-1.5E0", "0.25e1", "3", "-7.0e0", "9223372036854775808", "-0.0e0", "100e-2"] { v.push(x(l, "double")); }
+    for l in ["1.0", "1e1", "-1.5", "3", "9223372036854775808", "0"] { v.push(x(l, "float")); }
+    for (l, t) in [("1", "long"), ("1", "unsignedByte"), ("01", "positiveInteger"), ("10", "short"), ("-7", "negativeInteger"), ("3", "unsignedInt"),
+                   ("9223372036854775808", "unsignedLong"), ("9223372036854775808", "positiveInteger"), ("-9223372036854775809", "negativeInteger")] { v.push(x(l, t)); }
+    for l in ["2024-09-17T14:00:00+02:00", "2024-09-17T08:00:00-04:00", "2024-09-17T12:00:00.0", "2024-09-17T12:00:00.000", "2024-09-17T12:00:00.250",
+              "2024-09-17T12:00:00.50Z", "2024-09-18T00:00:00.0", "1970-01-01T00:00:00.000"] { v.push(x(l, "dateTime")); }
+    for (l, t) in [("a", "En"), ("b", "EN"), ("1", "DE")] { v.push(lit_lang(l, t)); }
+    for (l, t) in [("-2.5", "decimal"), ("-2.5", "double"), ("-0.5", "decimal"), ("-0.5", "float"), ("0.5", "double")] { v.push(x(l, t)); }
+    for (l, t) in [("-0", "unsignedInt"), ("-00", "unsignedLong"), ("-0", "nonNegativeInteger"), ("-1", "unsignedInt")] { v.push(x(l, t)); }
+    // triple terms that differ by a language string only (Term::cmp on language strings is reachable only inside triple terms)
+    for (l, t) in [("a", "en"), ("b", "EN"), ("a", "fr"), ("a", "EN")] { v.push(triple(iri("http://example.org/a"), iri("http://example.org/p"), lit_lang(l, t))); }
     v
 }
 
@@ -202,8 +233,53 @@ pub fn oracle_cmp_values(a: &OV, b: &OV) -> Option<Ordering> {
         _ => None,
     }
 }
+
+// ---------------------------------------------------------------- independent oracle: ties (values that are exactly equal)
+/// RDF term equality (language tags compare case-insensitively)
+pub fn same_term(a: &ST, b: &ST) -> bool {
+    match (a, b) {
+        (SimpleTerm::Iri(x), SimpleTerm::Iri(y)) => x.as_str() == y.as_str(),
+        (SimpleTerm::BlankNode(x), SimpleTerm::BlankNode(y)) => x.as_str() == y.as_str(),
+        (SimpleTerm::Variable(x), SimpleTerm::Variable(y)) => x.as_str() == y.as_str(),
+        (SimpleTerm::LiteralDatatype(l1, d1), SimpleTerm::LiteralDatatype(l2, d2)) => l1[..] == l2[..] && d1.as_str() == d2.as_str(),
+        (SimpleTerm::LiteralLanguage(l1, t1), SimpleTerm::LiteralLanguage(l2, t2)) => l1[..] == l2[..] && t1.as_str().eq_ignore_ascii_case(t2.as_str()),
+        (SimpleTerm::Triple(x), SimpleTerm::Triple(y)) => (0..3).all(|i| same_term(&x[i], &y[i])),
+        _ => false,
+    }
 }
-use ora::{OV, days_from_civil, oracle_cmp_values, oracle_value};
+/// the exact mathematical value of a number (no rounding: a finite binary float is a decimal)
+#[derive(Clone, Debug)]
+pub enum Exact { NegInf, Fin(Dec), PosInf }
+pub fn exact_of_f64(f: f64) -> Option<Exact> {
+    if f.is_nan() { None } else if f.is_infinite() { Some(if f < 0.0 { Exact::NegInf } else { Exact::PosInf }) }
+    else { parse_dec(&format!("{f:.1100}"), true).map(Exact::Fin) } // 1074 fractional digits are enough for every f64
+}
+pub fn exact_value(v: &OV) -> Option<Exact> {
+    match v { OV::Dec(d) => Some(Exact::Fin(d.clone())), OV::Dbl(f) => exact_of_f64(*f), OV::Flt(f) => exact_of_f64(*f as f64), _ => None }
+}
+pub fn exact_cmp(a: &Exact, b: &Exact) -> Ordering {
+    let rk = |e: &Exact| match e { Exact::NegInf => 0u8, Exact::Fin(_) => 1, Exact::PosInf => 2 };
+    match (a, b) { (Exact::Fin(x), Exact::Fin(y)) => x.cmp(y), _ => rk(a).cmp(&rk(b)) }
+}
+/// two keys that ORDER BY must consider tied, so that the NEXT key decides: the same term, or two
+/// literals whose values are equal for SPARQL without any rounding (1 / 1.0 / 1e0 / "01"^^xsd:integer,
+/// one instant written in two time zones, true / "1"^^xsd:boolean). Values that are only equal
+/// after promotion (2^53+1 and 2^53 as a double), a dateTime with and one without time zone, NaNs and
+/// literals without a value are NOT ties for this oracle (no opinion).
+pub fn exact_tie(a: &ST, b: &ST) -> bool {
+    if same_term(a, b) { return true; }
+    match (oracle_value(a), oracle_value(b)) {
+        (OV::Bool(x), OV::Bool(y)) => x == y,
+        (OV::Date { zoned: z1, secs: s1, frac: f1 }, OV::Date { zoned: z2, secs: s2, frac: f2 }) => z1 == z2 && s1 == s2 && f1 == f2,
+        (x, y) => match (exact_value(&x), exact_value(&y)) { (Some(p), Some(q)) => exact_cmp(&p, &q) == Ordering::Equal, _ => false },
+    }
+}
+/// a strict order between two literals that '<' (with its promotions) or the exact values impose
+pub fn strict_order(a: &ST, b: &ST) -> Option<Ordering> {
+    oracle_cmp_values(&oracle_value(a), &oracle_value(b)).filter(|o| *o != Ordering::Equal)
+}
+}
+use ora::{OV, days_from_civil, exact_tie, oracle_cmp_values, oracle_value, same_term, strict_order};
 
 // ---------------------------------------------------------------- the value seen by the implementation, as a Coq term
 fn coq_z(s: &str) -> String { let s = s.trim_start_matches('+'); if let Some(r) = s.strip_prefix('-') { format!("(-{r})%Z") } else { format!("({s})%Z") } }
@@ -246,9 +322,14 @@ fn coq_value(t: &ST) -> Result<String, String> {
     let at: ArcTerm = t.into_term();
     let rt = ResultTerm::from(at);
     let dbg = format!("{:?}", rt.value());
+    coq_value_dbg(t, &dbg)
+}
+/// the same from a Debug rendering obtained elsewhere (the value cached in a ResultTerm returned by
+/// the engine: a key computed by BIND keeps its representation, e.g. a BigInt that fits in an isize)
+fn coq_value_dbg(t: &ST, dbg: &str) -> Result<String, String> {
     let bad = || format!("unexpected Debug rendering {dbg:?}");
     if dbg == "None" { return Ok("None".into()); }
-    let v = inner(&dbg, "Some(").ok_or_else(bad)?;
+    let v = inner(dbg, "Some(").ok_or_else(bad)?;
     let body = if let Some(n) = inner(v, "Number(") {
         let num = if let Some(i) = inner(n, "NativeInt(") { format!("(NativeInt {})", coq_z(i)) }
         else if let Some(i) = inner(n, "BigInt(") { format!("(BigInt {})", coq_z(i)) }
@@ -284,7 +365,7 @@ fn rank_of(t: Option<&ST>) -> u8 {
 }
 
 // ---------------------------------------------------------------- running the implementation
-struct Pool { terms: Vec<ST>, ov: Vec<OV>, names: Vec<String> }
+struct Pool { terms: Vec<ST>, ov: Vec<OV>, names: Vec<String>, nsweep: usize }
 type Key = Option<usize>;
 fn key_name(p: &Pool, k: Key) -> String { match k { Some(i) => p.names[i].clone(), None => "UNBOUND".into() } }
 
@@ -367,6 +448,8 @@ fn check_output_x(p: &Pool, rows: &[Vec<Key>], descs: &[bool], unsorted: &[(usiz
                     }
                     break;
                 }
+                // (v) two different terms with exactly equal values are tied on this key: the next key decides
+                if re == 3 && rl == 3 && exact_tie(te.unwrap(), tl.unwrap()) { continue; }
                 let (exp, why) = if re != rl { (Some(Ord::cmp(&re, &rl)), "(iii) kind rank") }
                     else if re == 3 { (oracle_cmp_values(&p.ov[e[k].unwrap()], &p.ov[l[k].unwrap()]).filter(|o| *o != Ordering::Equal), "(ii) operator '<'") }
                     else { (None, "") };
@@ -404,6 +487,458 @@ fn observe_pair(p: &Pool, k1: Key, k2: Key) -> Result<(u8, String), String> {
     Ok((code, format!("inputs {ia:?}/{ib:?} outputs {oa:?}/{ob:?}")))
 }
 
+// ================================================================ end-to-end queries: computed keys, ties, windows
+// A case is a small dataset of solutions (operands ?a ?b ?c, optionally in named graphs) and a list of
+// ORDER BY criteria that are EXPRESSIONS over the operands.  The key of every solution is observed through
+// BIND in an unsorted query (term + the value cached by the engine), the sorted query is run through the
+// public entry points, and
+//   - the oracle checks on the observed TERMS: permutation, kind ranks, '<' re-implemented from the lexical
+//     forms, exact ties broken by the next key, and agreement with the engine's own operator '<' evaluated
+//     pairwise by BIND (and FILTER) in a cross-product query;
+//   - the Coq model sorts the observed items (rows_ok), evaluates '<' on them (lt_table_ok), checks LIMIT /
+//     OFFSET windows and DISTINCT outputs (window_ok / sorted_ok) and, for ?a OP ?b on integers, the value and
+//     representation computed by the engine (int_arith_ok).
+const OPV: [&str; 3] = ["a", "b", "c"];
+const XI: &str = "<http://www.w3.org/2001/XMLSchema#integer>";
+#[derive(Clone, Debug)]
+struct KeySpec { expr: String, desc: bool, form: u8 } // form 0: ORDER BY (expr); 1: BIND(expr AS ?kI) in the group; 2: SELECT (expr AS ?kI)
+#[derive(Clone, Debug)]
+struct QCase {
+    ops: Vec<Vec<Option<ST>>>, // per solution: the operands (only the last one may be unbound)
+    nops: usize,
+    keys: Vec<KeySpec>,
+    graph: bool,               // every solution lives in a named graph and is matched by GRAPH ?g { .. }
+    graph_const: bool,         // ... by GRAPH <x:g1> { .. }: only the solutions of that graph remain
+    filter: Option<String>,
+    flip: bool,                // order of the UNION branches (bound / unbound last operand)
+    store: u8,                 // 0 Vec of quads, 1 LightDataset, 2 FastDataset
+    entry: u8,                 // 0 SparqlQuery::parse + query(&q), 1 prepare_query + query(&q), 2 query(&str)
+    slice: Option<(usize, Option<usize>)>,
+    distinct: bool,
+    arith: Option<&'static str>, // key 0 is exactly (?a OP ?b) / (- ?a): compared with the model's integer arithmetic
+    label: String,
+}
+#[derive(Clone, Debug)]
+struct KeyObs { term: Option<ST>, dbg: String }
+impl KeyObs {
+    fn coq(&self) -> Result<String, String> { match &self.term { None => Ok("None".into()), Some(t) => Ok(format!("(Some (mkItem {} {}))", coq_term_c(t), coq_value_dbg(t, &self.dbg)?)) } }
+    fn show(&self) -> String { match &self.term { None => "UNBOUND".into(), Some(t) => { let v = self.dbg.strip_prefix("Some(").and_then(|r| r.strip_suffix(')')).unwrap_or(&self.dbg); format!("{} [{}]", show(t), if v.len() > 60 { &v[..60] } else { v }) } } }
+    fn tag(&self) -> String {
+        match &self.term { None => "unbound".into(), Some(t) => match t.kind() {
+            TermKind::Literal => { let d = self.dbg.as_str();
+                if d == "None" { "lit:no-value".into() } else if d.contains("NaN") { "num:nan".into() } else if d.contains("Float(") { "num:float".into() } else if d.contains("Double(") { "num:double".into() }
+                else if d.contains("Decimal(") { "num:decimal".into() } else if d.contains("NativeInt(") { "num:integer".into() } else if d.contains("BigInt(") { "num:bigint".into() }
+                else if d.contains("String(") { if t.language_tag().is_some() { "str:lang".into() } else { "str:simple".into() } }
+                else if d.contains("Boolean(Some") { "bool".into() } else if d.contains("Naive(") { "date:naive".into() } else if d.contains("Timezoned(") { "date:zoned".into() } else { "lit:ill-formed".into() } }
+            k => format!("{k:?}") } }
+    }
+}
+/// XSD datatypes that the case files name `xd_<local>` (defined once in their header): the Coq image of a
+/// literal is then its lexical form only (parsing long lists of code points dominates the Coq time)
+const XD: [&str; 23] = ["integer", "decimal", "double", "float", "string", "boolean", "dateTime", "long", "int", "short", "byte", "unsignedLong", "unsignedInt", "unsignedShort",
+    "unsignedByte", "nonNegativeInteger", "positiveInteger", "nonPositiveInteger", "negativeInteger", "gYear", "date", "duration", "hexBinary"];
+fn xd_header() -> String { XD.iter().map(|l| format!("Definition xd_{l} : str := xsd_ns ++ {}.\n", coq_str(l))).collect() }
+/// the same Coq term as `coq_term` (Common/Term.v), with the XSD datatype IRIs abbreviated
+fn coq_term_c(t: &ST) -> String {
+    match t {
+        SimpleTerm::LiteralDatatype(l, dt) => match dt.as_str().strip_prefix(XSD).filter(|l| XD.contains(l)) { Some(local) => format!("(LitDt {} xd_{local})", coq_str(l)), None => coq_term(t) },
+        SimpleTerm::Triple(spo) => format!("(Triple {} {} {})", coq_term_c(&spo[0]), coq_term_c(&spo[1]), coq_term_c(&spo[2])),
+        _ => coq_term(t),
+    }
+}
+fn to_st<T: Term>(t: T) -> ST {
+    match t.kind() {
+        TermKind::Iri => iri(t.iri().unwrap().as_str()),
+        TermKind::BlankNode => bnode(t.bnode_id().unwrap().as_str()),
+        TermKind::Variable => var(t.variable().unwrap().as_str()),
+        TermKind::Literal => match t.language_tag() { Some(tag) => lit_lang(&t.lexical_form().unwrap(), tag.as_str()), None => lit_dt(&t.lexical_form().unwrap(), t.datatype().unwrap().as_str()) },
+        TermKind::Triple => { let [s, p, o] = t.triple().unwrap(); triple(to_st(s), to_st(p), to_st(o)) }
+    }
+}
+/// append `sfx` to every variable of a SPARQL fragment (none of our constants contains a '?')
+fn rename_vars(e: &str, sfx: &str) -> String {
+    let mut out = String::new(); let cs: Vec<char> = e.chars().collect(); let mut i = 0;
+    while i < cs.len() {
+        out.push(cs[i]);
+        if cs[i] == '?' { let mut j = i + 1; while j < cs.len() && (cs[j].is_ascii_alphanumeric() || cs[j] == '_') { out.push(cs[j]); j += 1; } if j > i + 1 { out.push_str(sfx); } i = j; } else { i += 1; }
+    }
+    out
+}
+type QRows = Vec<Vec<Option<(ST, String)>>>; // per result row and column: the term and the Debug rendering of its cached value
+fn exec_on<D: Dataset>(d: &D, entry: u8, q: &str) -> Result<QRows, String> where D::Error: std::fmt::Debug {
+    let w = SparqlWrapper(d);
+    let res = match entry {
+        0 => { let pq = SparqlQuery::parse(q).map_err(|e| format!("parse error {e:?} in {q}"))?; w.query(&pq) }
+        1 => { let pq = w.prepare_query(q).map_err(|e| format!("prepare_query error {e:?} in {q}"))?; w.query(&pq) }
+        _ => w.query(q),
+    };
+    let b = res.map_err(|e| format!("query error {e:?} in {q}"))?.into_bindings();
+    let mut out = vec![];
+    for row in b {
+        let row = row.map_err(|e| format!("row error {e:?} in {q}"))?;
+        out.push(row.iter().map(|t| t.as_ref().map(|t| (to_st(t.inner()), format!("{:?}", t.value())))).collect());
+    }
+    Ok(out)
+}
+impl QCase {
+    fn n(&self) -> usize { self.ops.len() }
+    fn any_unbound(&self) -> bool { self.ops.iter().any(|r| r.iter().any(|o| o.is_none())) }
+    fn quads(&self) -> Vec<([ST; 3], Option<ST>)> {
+        let mut ds = vec![];
+        for (i, r) in self.ops.iter().enumerate() {
+            let g = if self.graph { Some(iri(&format!("x:g{}", i % 3))) } else { None };
+            for (k, o) in r.iter().enumerate() {
+                match o { Some(t) => ds.push(([iri(&format!("x:s{i}")), iri(&format!("x:o{}", OPV[k])), t.clone()], g.clone())),
+                          None => ds.push(([iri(&format!("x:s{i}")), iri(&format!("x:n{}", OPV[k])), x("0", "integer")], g.clone())) }
+            }
+        }
+        ds
+    }
+    fn bgp(&self, with_last: bool, sfx: &str) -> String {
+        let mut s = String::new();
+        for k in 0..self.nops { let v = OPV[k]; s.push_str(&if k == self.nops - 1 && !with_last { format!(" ?s{sfx} <x:n{v}> ?zz{sfx} .") } else { format!(" ?s{sfx} <x:o{v}> ?{v}{sfx} .") }); }
+        s
+    }
+    fn body(&self) -> String {
+        let b = if self.any_unbound() { let (p, q) = (format!("{{{} }}", self.bgp(true, "")), format!("{{{} }}", self.bgp(false, ""))); if self.flip { format!(" {q} UNION {p}") } else { format!(" {p} UNION {q}") } } else { self.bgp(true, "") };
+        if self.graph_const { format!(" GRAPH <x:g1> {{{b} }}") } else if self.graph { format!(" GRAPH ?g {{{b} }}") } else { b }
+    }
+    fn filter_txt(&self) -> String { self.filter.as_ref().map_or(String::new(), |f| format!(" FILTER({f})")) }
+    /// the unsorted query that exposes every key through BIND
+    fn obs_query(&self) -> String {
+        let mut q = String::from("SELECT ?s"); for i in 0..self.keys.len() { q.push_str(&format!(" ?k{i}")); }
+        q.push_str(&format!(" {{{}", self.body()));
+        for (i, k) in self.keys.iter().enumerate() { q.push_str(&format!(" BIND({} AS ?k{i})", k.expr)); }
+        q.push_str(&self.filter_txt()); q.push_str(" }"); q
+    }
+    /// the query under test; `windowed`: with its LIMIT / OFFSET; `distinct`: SELECT DISTINCT of the keys only
+    fn sorted_query(&self, windowed: bool, distinct: bool) -> String {
+        let mut q = String::from(if distinct { "SELECT DISTINCT" } else { "SELECT ?s" });
+        for (i, k) in self.keys.iter().enumerate() { match k.form { 2 => q.push_str(&format!(" ({} AS ?k{i})", k.expr)), 1 => q.push_str(&format!(" ?k{i}")), _ => {} } }
+        q.push_str(&format!(" {{{}", self.body()));
+        for (i, k) in self.keys.iter().enumerate() { if k.form == 1 { q.push_str(&format!(" BIND({} AS ?k{i})", k.expr)); } }
+        q.push_str(&self.filter_txt()); q.push_str(" } ORDER BY");
+        for (i, k) in self.keys.iter().enumerate() { let e = if k.form == 0 { format!("({})", k.expr) } else { format!("?k{i}") }; q.push_str(&if k.desc { format!(" DESC({e})") } else if i % 2 == 1 { format!(" ASC({e})") } else { format!(" {e}") }); }
+        if windowed { if let Some((start, len)) = self.slice { if let Some(l) = len { q.push_str(&format!(" LIMIT {l}")); } if start > 0 || len.is_none() { q.push_str(&format!(" OFFSET {start}")); } } }
+        q
+    }
+    /// every ordered pair of solutions in one BGP; ?lt<k> is the engine's answer to key_k(first) < key_k(second)
+    fn pairs_query(&self, filter_key: Option<usize>) -> String {
+        let mut q = String::from("SELECT ?s_1 ?s_2"); for i in 0..self.keys.len() { q.push_str(&format!(" ?lt{i}")); }
+        q.push_str(&format!(" {{{}{}", self.bgp(true, "_1"), self.bgp(true, "_2")));
+        for sfx in ["_1", "_2"] { for (i, k) in self.keys.iter().enumerate() { q.push_str(&format!(" BIND({} AS ?k{i}{sfx})", rename_vars(&k.expr, sfx))); } }
+        for i in 0..self.keys.len() { q.push_str(&format!(" BIND(?k{i}_1 < ?k{i}_2 AS ?lt{i})")); }
+        if let Some(k) = filter_key { q.push_str(&format!(" FILTER(?k{k}_1 < ?k{k}_2)")); }
+        q.push_str(" }"); q
+    }
+    fn exec(&self, q: &str) -> Result<QRows, String> {
+        let quads = self.quads(); let (store, entry) = (self.store, self.entry);
+        let res = std::panic::catch_unwind(std::panic::AssertUnwindSafe(|| -> Result<QRows, String> {
+            match store {
+                0 => exec_on(&quads, entry, q),
+                1 => { let mut d = sophia_inmem::dataset::LightDataset::new(); for (spo, g) in &quads { d.insert(&spo[0], &spo[1], &spo[2], g.as_ref()).map_err(|e| format!("insert: {e:?}"))?; } exec_on(&d, entry, q) }
+                _ => { let mut d = sophia_inmem::dataset::FastDataset::new(); for (spo, g) in &quads { d.insert(&spo[0], &spo[1], &spo[2], g.as_ref()).map_err(|e| format!("insert: {e:?}"))?; } exec_on(&d, entry, q) }
+            }
+        }));
+        match res { Ok(r) => r, Err(_) => Err(format!("PANIC while evaluating {q}")) }
+    }
+    fn describe(&self) -> String {
+        let rows: Vec<String> = self.ops.iter().enumerate().map(|(i, r)| format!("s{i}{}: {}", if self.graph { format!(" in <x:g{}>", i % 3) } else { String::new() },
+            r.iter().enumerate().map(|(k, o)| format!("?{}={}", OPV[k], o.as_ref().map_or("UNBOUND".into(), show))).collect::<Vec<_>>().join(" "))).collect();
+        format!("{} | data [{}] | store {} | entry {}", self.sorted_query(true, self.distinct).replace(XSD, "xsd:"), rows.join("; "), ["Vec of quads", "LightDataset", "FastDataset"][self.store as usize], ["SparqlQuery::parse + query", "prepare_query + query", "query(&str)"][self.entry as usize])
+    }
+}
+fn sid(c: &Option<(ST, String)>) -> Result<usize, String> {
+    let (t, _) = c.as_ref().ok_or("unbound ?s")?;
+    t.iri().ok_or("?s is not an IRI")?.as_str().strip_prefix("x:s").ok_or("?s")?.parse::<usize>().map_err(|_| "?s".to_string())
+}
+/// oracle on one sorted sequence of observed keys (terms): first violation, as text
+fn check_sorted_obs(keys: &[&Vec<KeyObs>], descs: &[bool], names: &[String], lt: Option<&Vec<Vec<Vec<u8>>>>, ids: &[usize]) -> Option<String> {
+    let whole = |k: usize| keys.iter().map(|r| r[k].show()).collect::<Vec<_>>().join(", ");
+    for i in 0..keys.len() { for j in i + 1..keys.len() {
+        let (e, l) = (keys[i], keys[j]);
+        for k in 0..descs.len() {
+            let (te, tl) = (e[k].term.as_ref(), l[k].term.as_ref());
+            let (re, rl) = (rank_of(te), rank_of(tl));
+            let dirn = if descs[k] { "DESC" } else { "ASC" };
+            // the engine's own '<' on this key (cross-product query)
+            if let Some(lt) = lt {
+                let (a, b) = (ids[i], ids[j]);
+                let wrong = if descs[k] { lt[k][a][b] == 1 } else { lt[k][b][a] == 1 };
+                if wrong { return Some(format!("(vi) operator '<' of the engine: on key {k} ({dirn}) {} of {} is output (position {i}) before {} of {} (position {j}) although the engine itself evaluates {} < {} to true{}; whole output on that key: [{}]",
+                    e[k].show(), names[i], l[k].show(), names[j], if descs[k] { e[k].show() } else { l[k].show() }, if descs[k] { l[k].show() } else { e[k].show() }, if k > 0 { " and all the earlier keys of the two solutions are tied" } else { "" }, whole(k))); }
+            }
+            if re == 0 && rl == 0 { continue; }
+            if re != rl {
+                let o = Ord::cmp(&re, &rl); let o = if descs[k] { o.reverse() } else { o };
+                if o == Ordering::Greater { return Some(format!("(iii) kind rank: on key {k} ({dirn}) {} of {} is output (position {i}) before {} of {} (position {j}) although it must come after it; whole output on that key: [{}]", e[k].show(), names[i], l[k].show(), names[j], whole(k))); }
+                break;
+            }
+            let (te, tl) = (te.unwrap(), tl.unwrap());
+            if exact_tie(te, tl) { continue; } // (v) tied: the next key decides
+            if re == 3 {
+                if let Some(o) = strict_order(te, tl) {
+                    let o = if descs[k] { o.reverse() } else { o };
+                    if o == Ordering::Greater { return Some(format!("(ii) operator '<'{}: on key {k} ({dirn}) {} of {} is output (position {i}) before {} of {} (position {j}) although it must come after it; whole output on that key: [{}]",
+                        if k > 0 { " on a later key, the earlier keys of the two solutions being tied (v)" } else { "" }, e[k].show(), names[i], l[k].show(), names[j], whole(k))); }
+                }
+            }
+            break; // the first key on which the two solutions are not tied decides (as far as the oracle can tell)
+        }
+    } }
+    None
+}
+struct QOut { text: String, desc: String, failure: Option<String>, body: Option<String>, tags: Vec<String>, bumps: Vec<String> }
+fn run_qcase(c: &QCase, verbose: bool) -> QOut {
+    let text = c.describe();
+    let mut bumps = vec![format!("q:{}", c.label), format!("q:store{}", c.store), format!("q:entry{}", c.entry), format!("q:{}keys", c.keys.len())];
+    for k in &c.keys { bumps.push(format!("q:keyform{}{}", k.form, if k.desc { ":desc" } else { "" })); }
+    let fail = |f: String, bumps: Vec<String>| QOut { text: text.clone(), desc: f.clone(), failure: Some(if f.starts_with("PANIC") { format!("sorting panicked: {f}") } else { f }), body: None, tags: vec![], bumps };
+    let nk = c.keys.len();
+    let descs: Vec<bool> = c.keys.iter().map(|k| k.desc).collect();
+    // ---- the keys, observed through BIND in the unsorted query
+    let oq = c.obs_query();
+    let obs_rows = match c.exec(&oq) { Ok(r) => r, Err(e) => return fail(e, bumps) };
+    let mut order: Vec<usize> = vec![]; let mut obs: Vec<Option<Vec<KeyObs>>> = vec![None; c.n()];
+    for r in &obs_rows {
+        let s = match sid(&r[0]) { Ok(s) if s < c.n() && obs[s].is_none() => s, _ => return fail(format!("(i) the unsorted query {oq} returned an unexpected or repeated solution {:?}", r[0]), bumps) };
+        obs[s] = Some(r[1..].iter().map(|x| match x { Some((t, d)) => KeyObs { term: Some(t.clone()), dbg: d.clone() }, None => KeyObs { term: None, dbg: "None".into() } }).collect());
+        order.push(s);
+    }
+    if c.filter.is_none() && !c.graph_const && order.len() != c.n() { return fail(format!("(i) the unsorted query {oq} returned {} of the {} solutions", order.len(), c.n()), bumps); }
+    if c.graph_const && c.filter.is_none() { let mut got = order.clone(); got.sort(); let want: Vec<usize> = (0..c.n()).filter(|i| i % 3 == 1).collect(); if got != want { return fail(format!("(i) the unsorted query {oq} returned the solutions {got:?}, those of the graph <x:g1> are {want:?}"), bumps); } }
+    let pos_of = |s: usize| order.iter().position(|x| *x == s);
+    let names: Vec<String> = (0..c.n()).map(|i| format!("s{i}")).collect();
+    // ---- the engine's '<' on every ordered pair of solutions (one BGP: no UNION, no GRAPH)
+    let mut lt: Option<Vec<Vec<Vec<u8>>>> = None;
+    if !c.any_unbound() && !c.graph && c.n() <= 8 {
+        let pq = c.pairs_query(None);
+        let rows = match c.exec(&pq) { Ok(r) => r, Err(e) => return fail(e, bumps) };
+        if rows.len() != c.n() * c.n() { return fail(format!("the cross-product query {pq} returned {} rows instead of {}", rows.len(), c.n() * c.n()), bumps); }
+        let mut m = vec![vec![vec![2u8; c.n()]; c.n()]; nk];
+        for r in &rows {
+            let (Ok(s1), Ok(s2)) = (sid(&r[0]), sid(&r[1])) else { return fail(format!("unexpected row in {pq}"), bumps) };
+            for k in 0..nk { m[k][s1][s2] = match &r[2 + k] { None => 2, Some((t, _)) => match &t.lexical_form().unwrap()[..] { "true" => 1, "false" => 0, _ => return fail(format!("{pq}: '<' returned {}", show(t)), bumps) } }; }
+        }
+        // the same operator in a FILTER keeps exactly the pairs for which BIND produced true
+        let fk = (c.n() + nk) % nk;
+        let fq = c.pairs_query(Some(fk));
+        let frows = match c.exec(&fq) { Ok(r) => r, Err(e) => return fail(e, bumps) };
+        let mut kept: Vec<(usize, usize)> = vec![]; for r in &frows { if let (Ok(a), Ok(b)) = (sid(&r[0]), sid(&r[1])) { kept.push((a, b)); } }
+        kept.sort();
+        let mut want: Vec<(usize, usize)> = vec![]; for a in 0..c.n() { for b in 0..c.n() { if m[fk][a][b] == 1 { want.push((a, b)); } } }
+        if kept != want { return fail(format!("(vi) FILTER(key{fk} < key{fk}) keeps the pairs {kept:?} but BIND(key{fk} < key{fk}) is true on {want:?} in {fq}"), bumps); }
+        for k in 0..nk { for a in 0..c.n() { for b in 0..c.n() { bumps.push(format!("q:lt:{}", ["false", "true", "error"][m[k][a][b] as usize])); } } }
+        lt = Some(m);
+    }
+    // ---- the sorted query (without its window)
+    let sq = c.sorted_query(false, false);
+    let srows = match c.exec(&sq) { Ok(r) => r, Err(e) => return fail(e, bumps) };
+    let mut out: Vec<usize> = vec![];
+    for r in &srows { match sid(&r[0]) { Ok(s) if s < c.n() => out.push(s), _ => return fail(format!("(i) unexpected solution {:?} in the result of {sq}", r[0]), bumps) } }
+    let mut failure: Option<String> = None;
+    { let (mut a, mut b) = (order.clone(), out.clone()); a.sort(); b.sort(); if a != b { failure = Some(format!("(i) the ordered result {out:?} is not a permutation of the unordered solutions {order:?}")); } }
+    if failure.is_none() {
+        let keys: Vec<&Vec<KeyObs>> = out.iter().map(|s| obs[*s].as_ref().unwrap()).collect();
+        let nm: Vec<String> = out.iter().map(|s| names[*s].clone()).collect();
+        failure = check_sorted_obs(&keys, &descs, &nm, lt.as_ref(), &out);
+    }
+    // the variables of form 1 / 2 keys, as returned by the sorted query, are the observed keys
+    if failure.is_none() {
+        let cols: Vec<usize> = (0..nk).filter(|i| c.keys[*i].form != 0).collect();
+        for (ri, r) in srows.iter().enumerate() { for (ci, ki) in cols.iter().enumerate() {
+            let seen = r.get(1 + ci).cloned().flatten(); let want = &obs[out[ri]].as_ref().unwrap()[*ki];
+            let same = match (&seen, &want.term) { (None, None) => true, (Some((t, d)), Some(w)) => same_term(t, w) && *d == want.dbg, _ => false };
+            if !same { failure = Some(format!("the sorted query binds ?k{ki} of s{} to {:?} but the unsorted query bound it to {}", out[ri], seen.map(|(t, d)| format!("{} [{d}]", show(&t))), want.show())); }
+        } }
+    }
+    let coq_rows = |seq: &[usize]| -> Result<String, String> { let mut v = vec![]; for s in seq { let mut ks = vec![]; for k in obs[*s].as_ref().unwrap() { ks.push(k.coq()?); } v.push(coq_list(ks)); } Ok(coq_list(v)) };
+    let mut parts: Vec<String> = vec![];
+    let out_pos: Vec<usize> = out.iter().filter_map(|s| pos_of(*s)).collect();
+    parts.push(format!("rows_ok {} rows {}", coq_list(descs.iter().map(|d| coq_bool(*d).to_string())), coq_list(out_pos.iter().map(|x| x.to_string()))));
+    if let Some(m) = &lt { for k in 0..nk { parts.push(format!("lt_table_ok rows {k} {}", coq_list(order.iter().map(|a| coq_list(order.iter().map(|b| m[k][*a][*b].to_string())))))); } }
+    // ---- integer arithmetic of key 0 against the model
+    if let Some(op) = c.arith {
+        let mut es = vec![];
+        for s in &order {
+            let item = |o: &Option<ST>| -> Result<String, String> { match o { Some(t) => Ok(format!("(Some (mkItem {} {}))", coq_term_c(t), coq_value(t)?)), None => Ok("None".into()) } };
+            match (item(&c.ops[*s][0]), item(c.ops[*s].get(1).unwrap_or(&None)), obs[*s].as_ref().unwrap()[0].coq()) { (Ok(a), Ok(b), Ok(k)) => es.push(format!("({a}, {b}, {k})")), (Err(e), _, _) | (_, Err(e), _) | (_, _, Err(e)) => return fail(e, bumps) }
+        }
+        parts.push(format!("int_arith_ok {op} {}", coq_list(es)));
+    }
+    let mut desc = format!("keys observed: [{}]; output order {:?}", order.iter().map(|s| format!("s{s}: {}", obs[*s].as_ref().unwrap().iter().map(|k| k.show()).collect::<Vec<_>>().join(" & "))).collect::<Vec<_>>().join("; "), out);
+    // ---- LIMIT / OFFSET above ORDER BY: exactly the window of the full result (sorting is reproducible)
+    if let Some((start, len)) = c.slice {
+        let wq = c.sorted_query(true, false);
+        let wrows = match c.exec(&wq) { Ok(r) => r, Err(e) => return fail(e, bumps) };
+        let mut w: Vec<usize> = vec![]; for r in &wrows { match sid(&r[0]) { Ok(s) if s < c.n() => w.push(s), _ => return fail(format!("unexpected solution in the result of {wq}"), bumps) } }
+        let want: Vec<usize> = out.iter().skip(start).take(len.unwrap_or(usize::MAX)).copied().collect();
+        if failure.is_none() && w != want { failure = Some(format!("(vii) LIMIT/OFFSET: {wq} returns the solutions {w:?} but the window of the complete ordered result {out:?} is {want:?}")); }
+        parts.push(format!("window_ok {} rows {} {start} {} {}", coq_list(descs.iter().map(|d| coq_bool(*d).to_string())), coq_list(out_pos.iter().map(|x| x.to_string())), len.map_or("None".to_string(), |l| format!("(Some {l})")), coq_list(w.iter().filter_map(|s| pos_of(*s)).map(|x| x.to_string()))));
+        desc.push_str(&format!("; window {w:?}")); bumps.push("q:window".into());
+    }
+    // ---- SELECT DISTINCT of the keys above ORDER BY: the ordered keys without their repetitions, still sorted
+    if c.distinct {
+        let dq = c.sorted_query(false, true);
+        let drows = match c.exec(&dq) { Ok(r) => r, Err(e) => return fail(e, bumps) };
+        let mut want: Vec<&Vec<KeyObs>> = vec![];
+        for s in &out { let k = obs[*s].as_ref().unwrap(); if !want.iter().any(|w| w.iter().zip(k.iter()).all(|(p, q)| match (&p.term, &q.term) { (None, None) => true, (Some(p), Some(q)) => same_term(p, q), _ => false })) { want.push(k); } }
+        let got: Vec<Vec<KeyObs>> = drows.iter().map(|r| r.iter().map(|x| match x { Some((t, d)) => KeyObs { term: Some(t.clone()), dbg: d.clone() }, None => KeyObs { term: None, dbg: "None".into() } }).collect()).collect();
+        let same = got.len() == want.len() && got.iter().zip(want.iter()).all(|(g, w)| g.len() == w.len() && g.iter().zip(w.iter()).all(|(p, q)| match (&p.term, &q.term) { (None, None) => true, (Some(p), Some(q)) => same_term(p, q), _ => false }));
+        if failure.is_none() && !same { failure = Some(format!("(viii) DISTINCT: {dq} returns [{}] but the ordered keys without repetitions are [{}]", got.iter().map(|g| g.iter().map(|k| k.show()).collect::<Vec<_>>().join(" & ")).collect::<Vec<_>>().join("; "), want.iter().map(|g| g.iter().map(|k| k.show()).collect::<Vec<_>>().join(" & ")).collect::<Vec<_>>().join("; "))); }
+        let mut rs = vec![]; for g in &got { let mut ks = vec![]; for k in g { match k.coq() { Ok(x) => ks.push(x), Err(e) => return fail(e, bumps) } } rs.push(coq_list(ks)); }
+        parts.push(format!("sorted_ok {} {}", coq_list(descs.iter().map(|d| coq_bool(*d).to_string())), coq_list(rs)));
+        bumps.push("q:distinct".into());
+    }
+    let body = match coq_rows(&order) { Ok(rows) => Some(format!("(let rows := {rows} in {})", parts.join(" && "))), Err(e) => return fail(e, bumps) };
+    let mut tags: Vec<String> = order.iter().flat_map(|s| obs[*s].as_ref().unwrap().iter().map(|k| k.tag())).collect(); tags.sort(); tags.dedup();
+    if verbose { println!("  unsorted query: {oq}\n  sorted query:   {sq}"); if lt.is_some() { println!("  pairs query:    {}", c.pairs_query(None)); } }
+    QOut { text, desc, failure, body, tags, bumps }
+}
+
+// ---------------------------------------------------------------- generators of end-to-end cases
+fn int_lit(v: i128, r: &mut Rng) -> ST {
+    // the same value under several integer datatypes (the engine parses all of them to NativeInt / BigInt)
+    let fits64 = v >= i64::MIN as i128 && v <= i64::MAX as i128;
+    let dt = match r.below(6) { 0 if fits64 => "long", 1 if v >= 0 => "nonNegativeInteger", 2 if v > 0 => "positiveInteger", 1 | 2 if v < 0 => "negativeInteger", 3 if v >= 0 && v <= u64::MAX as i128 => "unsignedLong", _ => "integer" };
+    let lex = match r.below(8) { 0 if v >= 0 => format!("+{v}"), 1 if v >= 0 => format!("0{v}"), _ => v.to_string() };
+    x(&lex, dt)
+}
+const HUGE: [i128; 12] = [1i128 << 63, (1i128 << 63) + 1, (1i128 << 63) + 9, -(1i128 << 63) - 1, -(1i128 << 63) - 6, (1i128 << 64) - 1, 1i128 << 64, -(1i128 << 64),
+    1_000_000_000_000_000_000_000_000_000_000, -1_000_000_000_000_000_000_000_000_000_000, (1i128 << 63) - 1, -(1i128 << 63)];
+struct Gen<'a> { pool: &'a Pool, fams: &'a [Vec<usize>], classes: &'a [(String, Vec<usize>)], np: usize }
+impl Gen<'_> {
+    fn class(&self, fam: &str) -> &[usize] { self.classes.iter().find(|c| c.0 == fam).map(|c| &c.1[..]).unwrap_or(&[]) }
+    fn pick_class(&self, r: &mut Rng, fams: &[&str]) -> ST { let f = *r.pick(fams); let c = self.class(f); if c.is_empty() { self.pool.terms[r.below(self.np)].clone() } else { self.pool.terms[*r.pick(c)].clone() } }
+    fn any(&self, r: &mut Rng) -> ST { self.pool.terms[r.below(self.np)].clone() }
+    fn small_int(&self, r: &mut Rng) -> ST { int_lit(r.below(21) as i128 - 10, r) }
+    fn num_expr(&self, r: &mut Rng, nops: usize, depth: usize) -> String {
+        let v = |r: &mut Rng| format!("?{}", OPV[r.below(nops)]);
+        let atom = |r: &mut Rng| if r.chance(3, 4) { v(r) } else { r.ps(&["0", "1", "-1", "2", "9223372036854775807", "-9223372036854775808", "9223372036854775808", "0.5", "1.0", "1e0", "\"2\"^^<http://www.w3.org/2001/XMLSchema#float>", "\"x\""]).to_string() };
+        if depth == 0 { return atom(r); }
+        match r.below(12) {
+            0 | 1 => format!("({} + {})", self.num_expr(r, nops, depth - 1), self.num_expr(r, nops, depth - 1)),
+            2 | 3 => format!("({} - {})", self.num_expr(r, nops, depth - 1), self.num_expr(r, nops, depth - 1)),
+            4 | 5 => format!("({} * {})", self.num_expr(r, nops, depth - 1), self.num_expr(r, nops, depth - 1)),
+            6 => format!("({} / {})", self.num_expr(r, nops, depth - 1), self.num_expr(r, nops, depth - 1)),
+            7 => format!("(- {})", self.num_expr(r, nops, depth - 1)),
+            8 => format!("(+ {})", self.num_expr(r, nops, depth - 1)),
+            9 => format!("{}({})", r.ps(&["ABS", "CEIL", "FLOOR", "ROUND"]), self.num_expr(r, nops, depth - 1)),
+            10 => format!("({} * 1)", v(r)),
+            _ => atom(r),
+        }
+    }
+    fn any_expr(&self, r: &mut Rng, nops: usize, graph: bool) -> String {
+        let v = |r: &mut Rng| if graph && r.chance(1, 6) { "?g".to_string() } else { format!("?{}", OPV[r.below(nops)]) };
+        let last = format!("?{}", OPV[nops - 1]);
+        match r.below(36) {
+            0..=3 => v(r),
+            4 => format!("STR({})", v(r)), 5 => format!("CONCAT(STR({}), STR({}))", v(r), v(r)), 6 => format!("UCASE({})", v(r)), 7 => format!("LCASE(STR({}))", v(r)),
+            8 => format!("LANG({})", v(r)), 9 => format!("STRLEN(STR({}))", v(r)), 10 => format!("SUBSTR(STR({}), 2)", v(r)), 11 => format!("DATATYPE({})", v(r)),
+            12 => format!("({} {} {})", v(r), r.ps(&["<", "<=", ">", ">=", "=", "!="]), v(r)), 13 => format!("(! {})", v(r)), 14 => format!("BOUND({last})"),
+            15 => format!("({} IN ({}, 1, \"a\"))", v(r), v(r)), 16 => format!("sameTerm({}, {})", v(r), v(r)), 17 => format!("{}({})", r.ps(&["isNumeric", "isLiteral", "isIRI", "isBlank"]), v(r)),
+            18 => format!("(({} < {}) || ({} > {}))", v(r), v(r), v(r), v(r)), 19 => format!("({} && {})", v(r), v(r)), 20 => "EXISTS { ?s <x:oc> ?zz9 }".to_string(),
+            21 => { let (p, q) = (v(r), v(r)); format!("IF({p} < {q}, {p}, {q})") } 22 => format!("COALESCE({last}, {})", v(r)), 23 => format!("COALESCE({}, {})", self.num_expr(r, nops, 1), v(r)),
+            24 => { let p = v(r); format!("IF(isNumeric({p}), {p} * 1, {p})") } 25 => format!("{}({})", r.ps(&["YEAR", "MONTH", "DAY", "HOURS", "MINUTES", "SECONDS"]), v(r)),
+            26 => format!("TRIPLE(<x:t>, <x:p>, {})", v(r)), 27 => r.ps(&["<x:const>", "\"a\"@en", "1", "true", "?never"]).to_string(), 28 => format!("IRI(CONCAT(\"x:\", STR({})))", v(r)),
+            29 => format!("IF(BOUND({last}), {last}, {})", v(r)), 30 => format!("STRAFTER(STR({}), \"-\")", v(r)),
+            31 => format!("IRI({})", v(r)), 32 => format!("{}({})", r.ps(&["STRLEN", "UCASE", "STR", "LANG"]), self.num_expr(r, nops, 1)),
+            _ => self.num_expr(r, nops, 2),
+        }
+    }
+    fn forms(&self, r: &mut Rng, keys: &mut [KeySpec]) { for k in keys.iter_mut() { k.form = match r.below(5) { 0 | 1 => 0, 2 | 3 => 1, _ => 2 }; k.desc = r.chance(2, 5); } }
+    fn case(&self, r: &mut Rng, sub: usize) -> QCase {
+        let key = |e: String| KeySpec { expr: e, desc: false, form: 0 };
+        let mut c = QCase { ops: vec![], nops: 2, keys: vec![], graph: false, graph_const: false, filter: None, flip: r.chance(1, 2), store: r.below(3) as u8, entry: r.below(3) as u8, slice: None, distinct: false, arith: None, label: String::new() };
+        let n = if r.chance(1, 12) { r.range(12, 45) } else { r.range(2, 8) };
+        match sub {
+            // ---- equal values written differently on the earlier key(s), a later key must break the tie
+            0 => {
+                c.label = "ties".into();
+                let three = r.chance(1, 3); c.nops = if three { 3 } else { 2 };
+                let f1 = r.pick(self.fams).clone(); let f2 = if r.chance(1, 2) { r.pick(self.fams).clone() } else { f1.clone() };
+                let tie = |r: &mut Rng, f: &Vec<usize>| self.pool.terms[*r.pick(f)].clone();
+                let tb: Vec<ST> = match r.below(4) { 0 => (0..n).map(|i| x(&i.to_string(), "integer")).collect(), 1 => (0..n).map(|i| x(&format!("{}", (b'a' + i as u8) as char), "string")).collect(),
+                    2 => (0..n).map(|i| x(&format!("{}.5", 2 * i), if i % 2 == 0 { "decimal" } else { "double" })).collect(), _ => (0..n).map(|i| x(&format!("2024-{:02}-{:02}T00:00:00Z", 1 + i / 28, 1 + i % 28), "dateTime")).collect() };
+                let mut perm: Vec<usize> = (0..n).collect(); for i in (1..n).rev() { perm.swap(i, r.below(i + 1)); }
+                for i in 0..n {
+                    let a = if r.chance(5, 6) { tie(r, &f1) } else { tie(r, &f2) };
+                    let b = tb[perm[i]].clone();
+                    c.ops.push(if three { vec![Some(a), Some(tie(r, &f2)), Some(b)] } else { vec![Some(a), Some(b)] });
+                }
+                let wrap = |r: &mut Rng, v: &str| match r.below(6) { 0 => format!("({v} * 1)"), 1 => format!("COALESCE({v}, 0)"), _ => v.to_string() };
+                c.keys = (0..c.nops).map(|k| key(if k + 1 < c.nops { wrap(r, &format!("?{}", OPV[k])) } else { format!("?{}", OPV[k]) })).collect();
+                self.forms(r, &mut c.keys);
+            }
+            // ---- integers that leave and re-enter the isize range
+            1 => {
+                c.label = "arith-directed".into();
+                let shape = r.below(9);
+                c.nops = if shape == 6 { 3 } else { 2 };
+                let (expr, op): (&str, Option<&'static str>) = match shape { 0 | 1 => ("(?a + ?b)", Some("OAdd")), 2 | 3 => ("(?a - ?b)", Some("OSub")), 4 => ("(?a * ?b)", Some("OMul")), 5 => ("(- (- ?a))", None), 6 => ("((?a + ?b) + ?c)", None), 8 => ("(ABS(?a) - ABS(?b))", None), _ => ("(- ?a)", Some("ONeg")) };
+                c.arith = op;
+                for _ in 0..n {
+                    let h = *r.pick(&HUGE) + if r.chance(1, 3) { r.below(7) as i128 - 3 } else { 0 };
+                    let d = r.below(25) as i128 - 12;
+                    let (a, b, cc): (i128, i128, i128) = match (shape, r.below(6)) {
+                        (0 | 1, 0 | 1) => (h, d - h, 0), (0 | 1, 2) => (d - h, h, 0), (2 | 3, 0 | 1) => (h, h - d, 0), (2 | 3, 2) => (d + h, h, 0),
+                        (4, 0) => (h, 0, 0), (4, 1) => (0, h, 0), (4, 2) => (1i128 << 32, if r.chance(1, 2) { 1i128 << 31 } else { -(1i128 << 31) }, 0), (4, 3) => (3037000500, 3037000500 - r.below(2) as i128, 0),
+                        (4, _) => (r.below(9) as i128 - 4, r.below(9) as i128 - 4, 0),
+                        (5 | 7, 0 | 1) => (h, 0, 0), (5 | 7, _) => (d, 0, 0),
+                        (8, 0 | 1) => (h, if r.chance(1, 2) { h - d } else { d - h }, 0), (8, 2) => (-(1i128 << 63), (1i128 << 63) - d.abs(), 0),
+                        (6, 0 | 1) => (h, d, -h), (6, 2) => (h, -h, d), (6, 3) => ((1i128 << 63) - 1, d.abs() + 1, -((1i128 << 63) - 1)),
+                        (_, 3) => (h, d, 0), (_, 4) => (d, r.below(25) as i128 - 12, r.below(5) as i128), _ => (d, 0, r.below(5) as i128),
+                    };
+                    let mut row = vec![Some(int_lit(a, r)), Some(int_lit(b, r))]; if c.nops == 3 { row.push(Some(int_lit(cc, r))); }
+                    if r.chance(1, 10) { let k = r.below(c.nops); row[k] = Some(self.pick_class(r, &["num"])); }
+                    c.ops.push(row);
+                }
+                c.keys.push(key(expr.to_string()));
+                if r.chance(1, 2) { c.keys.push(key(if r.chance(1, 2) { "?b".into() } else { "STR(?a)".into() })); }
+                self.forms(r, &mut c.keys);
+            }
+            // ---- random arithmetic over numbers of every type
+            2 => {
+                c.label = "arith-random".into();
+                c.nops = r.range(2, 3);
+                for _ in 0..n { c.ops.push((0..c.nops).map(|_| Some(match r.below(10) { 0..=4 => self.pick_class(r, &["num"]), 5 | 6 => self.small_int(r), 7 => int_lit(*r.pick(&HUGE), r), 8 => self.pick_class(r, &["num", "lit", "str"]), _ => self.any(r) })).collect()); }
+                for _ in 0..r.range(1, 2) { let d = r.range(1, 2); c.keys.push(key(self.num_expr(r, c.nops, d))); }
+                self.forms(r, &mut c.keys);
+                // a key computed from an earlier BIND-ed key
+                if c.keys[0].form == 1 && r.chance(1, 3) { let e = r.ps(&["(?k0 + 1)", "(- ?k0)", "(?k0 - ?k0)", "(?k0 * 1)", "ABS(?k0)"]).to_string(); c.keys.push(KeySpec { expr: e, desc: r.chance(1, 2), form: r.below(3) as u8 }); }
+            }
+            // ---- expressions of every kind over terms of every kind, several keys
+            3 => {
+                c.label = "expr-any".into();
+                c.nops = r.range(2, 3); c.graph = r.chance(1, 6);
+                let focus: Vec<&str> = match r.below(5) { 0 => vec!["num"], 1 => vec!["str", "lit"], 2 => vec!["date"], 3 => vec!["bool", "num", "str"], _ => vec![] };
+                let unb = r.chance(1, 3);
+                for _ in 0..n { let mut row: Vec<Option<ST>> = (0..c.nops).map(|_| Some(if focus.is_empty() || r.chance(1, 4) { self.any(r) } else { self.pick_class(r, &focus) })).collect(); if unb && r.chance(1, 3) { row[c.nops - 1] = None; } c.ops.push(row); }
+                // dateTime operands: one time in two the first key is a date part (YEAR .. SECONDS: integers and decimals)
+                if focus == ["date"] && r.chance(1, 2) { c.keys.push(key(format!("{}(?{})", r.ps(&["YEAR", "MONTH", "DAY", "HOURS", "MINUTES", "SECONDS"]), OPV[r.below(c.nops)]))); }
+                for _ in 0..r.range(1, 3) { c.keys.push(key(self.any_expr(r, c.nops, c.graph))); }
+                self.forms(r, &mut c.keys);
+            }
+            // ---- plain keys of every kind, few distinct values on the earlier keys, unbound operands, named graphs
+            _ => {
+                c.label = "plain".into();
+                c.nops = r.range(2, 3); c.graph = r.chance(1, 4); c.graph_const = c.graph && r.chance(1, 3);
+                let few: Vec<ST> = (0..3).map(|_| if r.chance(1, 2) { let f = r.pick(self.fams).clone(); self.pool.terms[*r.pick(&f)].clone() } else { self.any(r) }).collect();
+                let unb = r.chance(1, 2);
+                for _ in 0..n { let mut row: Vec<Option<ST>> = (0..c.nops).map(|k| Some(if k == 0 { r.pick(&few).clone() } else if r.chance(1, 2) { self.pick_class(r, &["num", "date", "bool"]) } else { self.any(r) })).collect(); if unb && r.chance(1, 3) { row[c.nops - 1] = None; } c.ops.push(row); }
+                c.keys = (0..c.nops).map(|k| key(format!("?{}", OPV[k]))).collect();
+                if c.graph && !c.graph_const && r.chance(1, 2) { let at = r.below(c.keys.len() + 1); c.keys.insert(at, key("?g".into())); }
+                self.forms(r, &mut c.keys);
+            }
+        }
+        // the keys that are also selected must not clash with a BIND of the same name in the group: forms are exclusive per key (fine)
+        if r.chance(1, 5) { c.filter = Some(match r.below(5) { 0 => "?a < ?b".to_string(), 1 => format!("BOUND(?{})", OPV[c.nops - 1]), 2 => "!(?a = ?b)".to_string(), 3 => "isLiteral(?a) || isIRI(?a)".to_string(), _ => "?a >= 0 || ?a < 0".to_string() }); }
+        if r.chance(1, 4) { let start = r.below(c.ops.len() + 2); let len = if r.chance(1, 4) { None } else { Some(r.below(c.ops.len() + 1)) }; c.slice = Some((start, len)); }
+        if r.chance(1, 6) { c.distinct = true; for k in c.keys.iter_mut() { if k.form == 0 { k.form = 1 + (k.expr.len() % 2) as u8; } } }
+        c
+    }
+}
+
 const TRIPLE_BASE: usize = 1_000_000_000;
 const PAIR_BASE: usize = 3_000_000_000;
 fn coq_key(k: Key) -> String { match k { Some(i) => format!("(Some p{i})"), None => "None".into() } }
@@ -415,12 +950,18 @@ fn main() {
     sum.rule = "pool of RDF terms (all numeric XSD types incl. derived integers, NaN, +-INF, -0.0, 2^53+-1, 2^24+1, huge/tiny decimals and doubles, ill-typed and Rust-only lexical forms, plain/tagged strings, unknown datatypes, booleans, dateTimes with/without zone, IRIs, blank nodes, triple terms) + unbound; \
 case = either an ordered pair of keys (comparator observed by sorting the two-element multiset in both arrangements with real ORDER BY queries) or a dataset of 2..8 (sometimes 24..60) solutions with 1 or 2 keys and random ASC/DESC; \
 non-trivial = the keys of the case span at least two value classes (kind / numeric type / NaN / ill-typed / string / boolean / dateTime zone-ness) ; distinct = distinct (keys, directions); \
-additionally every run sorts all 2-element multisets of the pool and checks the observed comparator on all triples (oracle iv)".into();
-    let terms = pool_terms();
-    let pool = Pool { ov: terms.iter().map(oracle_value).collect(), names: terms.iter().map(show).collect(), terms };
-    let np = pool.terms.len();
+additionally every run sorts all 2-element multisets of the swept pool and checks the observed comparator on all triples (oracle iv); \
+end-to-end cases (kinds q:*): 2..8 (sometimes 12..45) solutions with operands ?a ?b ?c (pool terms, integers around the ends of the isize range, cancelling sums/differences/products, an unbound last operand, named graphs), 1..4 criteria that are expressions (arithmetic of depth <= 2, string/boolean/conditional/date functions, plain variables, keys computed from an earlier BIND-ed key) given directly in ORDER BY, through BIND or through a SELECT expression, ASC/DESC mixes, over a Vec of quads / LightDataset / FastDataset, through SparqlQuery::parse / prepare_query / query(&str), optionally with FILTER, LIMIT/OFFSET, DISTINCT; the keys are observed through BIND; \
+oracle on them: permutation, kind ranks, '<' from the lexical forms, (v) exactly equal values written differently are tied and the next key decides, (vi) the engine's own '<' (BIND and FILTER over all ordered pairs) never contradicts the output, (vii) a window is the window of the complete result, (viii) DISTINCT keeps the order".into();
+    let mut terms = pool_terms();
+    let nsweep = terms.len();
+    terms.extend(extra_terms());
+    let pool = Pool { ov: terms.iter().map(oracle_value).collect(), names: terms.iter().map(show).collect(), terms, nsweep };
+    let np_all = pool.terms.len();
+    let np = nsweep; // the exhaustive sweep (oracle iv) and its replay stay on the first `nsweep` terms
     // header: the pool as Coq items (term + the value the implementation parsed)
     let mut header = String::from("From Sophia.C14 Require Import Model.\n");
+    header.push_str(&xd_header());
     let mut class_tag: Vec<String> = vec![];
     for (i, t) in pool.terms.iter().enumerate() {
         let v = match coq_value(t) { Ok(v) => v, Err(e) => { eprintln!("c14: {e} for {}", pool.names[i]); std::process::exit(2) } };
@@ -435,7 +976,7 @@ additionally every run sorts all 2-element multisets of the pool and checks the 
             k => format!("{k:?}"),
         };
         class_tag.push(tag);
-        header.push_str(&format!("Definition p{i} : item := mkItem {} {}.\n", coq_term(t), v));
+        header.push_str(&format!("Definition p{i} : item := mkItem {} {}.\n", coq_term_c(t), v));
     }
     let tag_of = |k: Key| match k { Some(i) => class_tag[i].clone(), None => "unbound".into() };
 
@@ -503,17 +1044,44 @@ additionally every run sorts all 2-element multisets of the pool and checks the 
     // indices by class, to draw related terms together
     let mut classes: Vec<(String, Vec<usize>)> = vec![];
     for (i, t) in class_tag.iter().enumerate() { let fam = t.split(':').next().unwrap().to_string(); match classes.iter_mut().find(|c| c.0 == fam) { Some(c) => c.1.push(i), None => classes.push((fam, vec![i])) } }
+    // families of pool terms whose values are exactly equal although the terms differ (oracle (v))
+    let mut fams: Vec<Vec<usize>> = vec![];
+    { let mut done = vec![false; np_all];
+      for i in 0..np_all { if done[i] || pool.terms[i].kind() != TermKind::Literal { continue; }
+        let mut f = vec![i];
+        for j in i + 1..np_all { if !done[j] && pool.terms[j].kind() == TermKind::Literal && !same_term(&pool.terms[i], &pool.terms[j]) && exact_tie(&pool.terms[i], &pool.terms[j]) { f.push(j); done[j] = true; } }
+        if f.len() >= 2 { fams.push(f); } } }
+    sum.extra.push(("tie_families".into(), fams.len().to_string()));
+    let mut q_samples = 0;
     for idx in range {
         let mut r = base.fork(idx as u64);
         let draw = |r: &mut Rng, focus: &Option<Vec<usize>>| -> Key {
             if r.chance(1, 14) { return None; }
-            match focus { Some(f) if r.chance(3, 4) => Some(*r.pick(f)), _ => Some(r.below(np)) }
+            match focus { Some(f) if r.chance(3, 4) => Some(*r.pick(f)), _ => Some(r.below(np_all)) }
         };
         // half of the cases concentrate on one or two families (numbers, dates, ...) so that
         // value comparisons and fallbacks meet; the others draw from the whole pool
         let focus: Option<Vec<usize>> = if r.chance(1, 2) { let mut f = r.pick(&classes).1.clone(); if r.chance(1, 2) { f.extend(r.pick(&classes).1.iter().copied()); } Some(f) } else { None };
-        let kind = r.below(20);
+        // kinds 0..19: keys that are pool terms (pairs, rows); kinds 20..: end-to-end queries with computed keys
+        let kind = r.below(40);
         let (text, body, desc_txt, failure, keys_flat): (String, Option<String>, String, Option<String>, Vec<Key>);
+        if kind >= 20 {
+            let sub = match kind { 20..=24 => 0, 25..=28 => 1, 29..=31 => 2, 32..=35 => 3, _ => 4 };
+            let g = Gen { pool: &pool, fams: &fams, classes: &classes, np: np_all };
+            let c = g.case(&mut r, sub);
+            if a.only.is_some() { println!("CASE {idx}: {}", c.describe()); }
+            let o = run_qcase(&c, a.only.is_some());
+            for b in &o.bumps { sum.bump(b); }
+            if let Some(f) = &o.failure { sum.oracle_failures.push((idx.to_string(), format!("query {} : {f}  [case: {}]", c.sorted_query(true, c.distinct).replace(XSD, "xsd:"), o.text))); }
+            if a.only.is_some() { println!("  => {}\n  oracle: {}\n  coq: {}", o.desc, o.failure.clone().unwrap_or("ok".into()), o.body.clone().unwrap_or("-".into())); }
+            let nontrivial = o.tags.len() >= 2 || (c.keys.len() >= 2 && c.n() >= 2);
+            if seen.insert(o.text.clone()) && nontrivial { sum.distinct_nontrivial += 1; }
+            for t in &o.tags { sum.bump(&format!("has:{t}")); }
+            if q_samples < 4 && nontrivial && o.failure.is_none() && o.text.len() + o.desc.len() < 1500 && sum.samples.len() < 10 { q_samples += 1; sum.samples.push(format!("case {idx}: {} => {}", o.text, o.desc)); }
+            sum.evaluations += 1;
+            if let Some(b) = o.body { cases.push((idx, b)); }
+            continue;
+        }
         if kind < 7 {
             let (k1, k2) = (draw(&mut r, &focus), draw(&mut r, &focus));
             text = format!("pair {} | {}", key_name(&pool, k1), key_name(&pool, k2));
@@ -536,7 +1104,8 @@ additionally every run sorts all 2-element multisets of the pool and checks the 
             let nk = if kind == 19 || expr { 1 } else { r.range(1, 2) };
             let descs: Vec<bool> = (0..nk).map(|_| r.chance(1, 3)).collect();
             // with two keys, the first one is drawn from few values so that ties happen
-            let few: Vec<Key> = (0..3).map(|_| draw(&mut r, &focus)).collect();
+            // (one time in three: different spellings of ONE value, so that the second key has to break the tie)
+            let few: Vec<Key> = if nk == 2 && r.chance(1, 3) { let f = r.pick(&fams); (0..3).map(|_| Some(*r.pick(f))).collect() } else { (0..3).map(|_| draw(&mut r, &focus)).collect() };
             let rows: Vec<Vec<Key>> = (0..n).map(|_| (0..nk).map(|k| if nk == 2 && k == 0 { *r.pick(&few) } else { draw(&mut r, &focus) }).collect()).collect();
             let flip = r.chance(1, 2);
             text = format!("rows [{}] order {}{}{}", rows.iter().map(|row| row.iter().map(|k| key_name(&pool, *k)).collect::<Vec<_>>().join(" & ")).collect::<Vec<_>>().join("; "),
@@ -566,7 +1135,8 @@ additionally every run sorts all 2-element multisets of the pool and checks the 
     if a.only.is_none() {
         sum.shards = write_shards(&a.out, &header, &cases, a.shards);
         sum.extra.push(("coq_cases".into(), cases.len().to_string()));
-        sum.extra.push(("pool_size".into(), np.to_string()));
+        sum.extra.push(("pool_size".into(), np_all.to_string()));
+        sum.extra.push(("swept_pool_size".into(), np.to_string()));
         std::fs::write(format!("{}/summary.json", a.out), sum.to_json()).unwrap();
     }
     println!("c14: {} cases, {} distinct non-trivial, {} oracle failures", sum.evaluations, sum.distinct_nontrivial, sum.oracle_failures.len());
